@@ -1739,9 +1739,9 @@ def strata(quick):
         ("lmma", gen_es("lm", False, quick), nontrivial_es, 40, 1000, 1.0),
         ("sepcma", gen_es("sep", False, quick), nontrivial_es, 40, 1000, 1.2),
         ("cma", gen_es("cma", False, quick), nontrivial_es, 40, 1000, 1.6),
-        ("lowdim-many-parents", gen_lowdim(quick), nontrivial_es, 14, 400, 0.8),
+        ("lowdim-many-parents", gen_lowdim(quick), nontrivial_es, 10, 400, 0.8),
         ("pycma", gen_pycma(quick), nontrivial_es, 12, 400, 0.5),
-        ("pycma-converge", gen_pycma_converge(quick), nontrivial_any, 8, 120, 0.6),
+        ("pycma-converge", gen_pycma_converge(quick), nontrivial_any, 6, 120, 0.6),
     ]
 
 
